@@ -36,10 +36,11 @@ def main():
         try:
             subprocess.run(["git", "-C", REPO, "apply", patch], check=True)
             results = {}
-            for pid in all_props:
-                rc, findings, err = run_check(pid)
-                if rc != 0:
-                    results[pid] = dict(exit=rc, findings=findings, analysis_error=err)
+            from concurrent.futures import ThreadPoolExecutor
+            with ThreadPoolExecutor(int(os.environ.get("SEED_JOBS", "5"))) as ex:
+                for pid, (rc, findings, err) in zip(all_props, ex.map(run_check, all_props)):
+                    if rc != 0:
+                        results[pid] = dict(exit=rc, findings=findings, analysis_error=err)
         finally:
             subprocess.run(["git", "-C", REPO, "checkout", "--", "."], check=True)
         agent = {}
